@@ -174,7 +174,17 @@ class World(BaseWorld):
                     for k in nz:
                         if v in k:
                             edits.append([enc_key(k), -terms[k]])
-        return {"type": mtype, "terms": [[enc_key(k), v] for k, v in items], "edits": edits}
+        md = {"type": mtype, "terms": [[enc_key(k), v] for k, v in items], "edits": edits}
+        if mtype not in MATRIX and mtype != "dict" and rng.random() < c.get("p_set_mapping", 0.15):
+            # the user pins the label -> index mapping himself (documented: set_mapping / set_reverse_mapping), in any dict order
+            labs = sorted({l for k, _ in items for l in k}, key=sort_key)
+            if len(labs) >= 2:
+                idx = list(range(len(labs)))
+                rng.shuffle(idx)
+                pairs = list(zip(labs, idx))
+                rng.shuffle(pairs)
+                md["set_mapping"] = {"how": rng.choice(["set_mapping", "set_reverse_mapping"]), "pairs": [[enc_label(l), i] for l, i in pairs]}
+        return md
 
     def model_info(self, fn, m):
         """(RefPoly, reported-variable superset, true variables, matrix?, N for matrix)."""
@@ -354,6 +364,14 @@ class World(BaseWorld):
         obj = T(d) if m["type"] != "dict" else d
         for k, delta in m.get("edits", []):
             obj[dec_key(k)] += delta
+        sm = m.get("set_mapping")
+        if sm:
+            pairs = [(dec_label(l), i) for l, i in sm["pairs"]]
+            if sm["how"] == "set_mapping":
+                obj.set_mapping(dict(pairs))
+            else:
+                obj.set_reverse_mapping({i: l for l, i in pairs})
+            self.fault("user_defined_mapping")
         return obj
 
     def snapshot(self, obj):
@@ -733,7 +751,7 @@ def gen_cfg(rng, prop, tier):
         "p_matrix": rng.choice([0.0, 0.3, 0.6, 0.9]),
         "p_gap": rng.choice([0.0, 0.3, 0.6]),
         "p_offset": rng.choice([0.0, 0.3, 0.7]),
-        "p_stale": rng.choice([0.0, 0.0, 0.15, 0.4]), "p_zero_entry": rng.choice([0.0, 0.1, 0.3]),
+        "p_set_mapping": rng.choice([0.0, 0.15, 0.4]), "p_stale": rng.choice([0.0, 0.0, 0.15, 0.4]), "p_zero_entry": rng.choice([0.0, 0.1, 0.3]),
         "p_init": rng.choice([0.0, 0.4, 0.8, 1.0]),
         "num_anneals": rng.choice([[1], [1, 2, 5], [-1, 0, 1, 2, 5], [2, 3], [1, 2, 5, 9], [7, 16, 33]]),
         "w_default_sched": rng.choice([0.3, 1, 3]),
@@ -774,6 +792,8 @@ def shrink_op(op):
             out.append(dict(op, model=dict(m, terms=t, edits=[e for e in m["edits"] if any(e[0] == k for k, _ in t)])))
     if m["edits"]:
         out.append(dict(op, model=dict(m, edits=m["edits"][:-1])))
+    if m.get("set_mapping"):
+        out.append(dict(op, model={k: v for k, v in m.items() if k != "set_mapping"}))
     if op.get("num_anneals", 1) > 1:
         out.append(dict(op, num_anneals=1))
     if isinstance(op.get("schedule"), list) and len(op["schedule"]) > 1:
